@@ -99,6 +99,16 @@ func (w *World) Exec(o *tr.Op) string {
 			return "err"
 		}
 		return "ok"
+	case "lock.validateparams":
+		p := lockingtypes.Params{
+			UnlockDuration: time.Duration(o.I64("unlock")), ExitingDuration: time.Duration(o.I64("exit")), DowntimeJailDuration: time.Duration(o.I64("jail")),
+			MaxValidators: o.I64("maxvals"), SignedBlocksWindow: o.I64("window"), MaxMissedPerWindow: o.I64("maxmissed"),
+			SlashFractionDoubleSign: decOf(o.Str("slashds")), SlashFractionDowntime: decOf(o.Str("slashdt")),
+			HalvingInterval: o.I64("halving"), InitialBlockReward: o.I64("reward")}
+		if err := p.Validate(); err != nil {
+			return "err"
+		}
+		return "ok"
 	case "addr.decode":
 		sc, err := bitcointypes.DecodeBtcAddress(string(o.Bytes("str")), bitcointypes.BitcoinNetworks[o.Str("net")])
 		if err != nil {
